@@ -104,7 +104,7 @@ func checkC06(w *World, r *Report) {
 		n := 0
 		// the oracle may be called in the operation itself or in a per-pool helper: arguments are traced with the
 		// helper's parameters bound to what the operation hands down
-		for _, e := range w.effectsBelow(fn, func(s *Site) bool { return calleeIs(s, "x/cfevesting/keeper.CalculateWithdrawable") }, 2) {
+		for _, e := range w.effectsBelow(fn, func(s *Site) bool { return calleeIs(s, "x/cfevesting/keeper.CalculateWithdrawable") }, 4) {
 			s := e.Site
 			n++
 			a := s.Common().Args
